@@ -236,6 +236,13 @@ func (group *Group) Dispose() {
 	if group.psPubSession != nil {
 		group.psPubSession.Dispose()
 	}
+	// relay pull的session也是输入型session，随group一起关闭
+	if group.pullProxy.rtmpSession != nil {
+		group.pullProxy.rtmpSession.Dispose()
+	}
+	if group.pullProxy.rtspSession != nil {
+		group.pullProxy.rtspSession.Dispose()
+	}
 
 	// The sets are emptied, not set to nil: ServerManager.Dispose leaves the group registered, and a
 	// subscriber that arrives while the server shuts down must not hit a nil map.
